@@ -13,6 +13,14 @@ REG = {
    text="Theorems in coq/Properties/C16.v: the glob matcher equals the declarative glob relation; basename/full-path/directory-subtree rule semantics; first-match decision; CLI rule order; and engine_select (the fold with excluded-directory pruning and size bounds) selects exactly {own first match includes, no excluded ancestor, size in bounds} for every rule list, bound and parent-first listing. Tied to the code by comparing FilterEngine::should_include with the extracted model over rule lists x a path universe and by running the real binary on generated trees/flags and comparing the transferred set with the proved selection; the listing hypothesis is evaluated on every real scan.",
    note="glob crate re-implemented for the grammar literal|?|* (validated by comparison, `**` and [..] outside the model); scanner walk order is a checked hypothesis. All theorems closed under the global context.",
    technique="Rocq proof (induction over the listing with an invariant) + differential correspondence (library and binary)"),
+ "C11": dict(
+   text="Theorems in coq/Properties/C11.v over a Gallina model of classifier.rs/resolver.rs/engine.rs/state.rs: for every pair of trees, every strategy, the first sync converges on every path outside the known class (equal size, different content) and loses no version except the loser a non-rename strategy names; the full statement is refuted by a vm_compute witness (C11_refuted_same_size = known finding C11-KF1). Tie: classify_changes/resolve_changes compared with the extracted model exhaustively over an ordered (size,mtime) domain, BisyncEngine::sync compared on edit/sync histories over real directories incl. state-DB rows; specification oracle (convergence, no silent loss) evaluated on the implementation's snapshots; failures count as known only inside a listed class and only while the implementation still equals the model of the pinned code.",
+   note="Partial: convergence is proved for first syncs (empty state); with prior state the recorded rows are partial/stale (known findings C11-KF2, C12-KF1/KF2) and the statement is false. SQLite and fs::copy/rename are oracles.",
+   technique="Rocq proof (frame lemmas + per-path case analysis, refutation witnesses) + exhaustive/differential correspondence"),
+ "C12": dict(
+   text="Theorems in coq/Properties/C12.v: the sync following a first sync plans no action on every non-renamed path (idle sync is a no-op) for all trees and strategy pairs; a deletion on the receiving side propagates; the full three-way-merge statement is refuted by two length-4 histories (C12_resurrects, C12_reverts_edit = known finding C12-KF1). Tie: all histories (edit)*sync(edit)*sync sync up to a bounded depth plus random histories executed on real directories and compared with the extracted model after every sync; three-way-merge reference oracle on the implementation's snapshots.",
+   note="Partial: the positive theorems cover histories with one prior sync; beyond that the statement is false of the code (known findings). SQLite and fs::copy/rename are oracles.",
+   technique="Rocq proof (frame lemmas, case analysis, vm_compute refutation witnesses) + exhaustive bounded-depth history correspondence"),
 }
 ORDER = ["C%02d" % i for i in range(1, 21)]
 
